@@ -214,13 +214,25 @@ Definition best_le (lhs : list dpos) (r : dpos) : option dpos :=
                     end
                else best) lhs None.
 
-Fixpoint connect_dots (lhs rhs : list dpos) : option (list (N * N)) :=
+(* The implicit "..." in front of a statement patch ([lead]: its id on the '-' side, 0 when there is
+   none) stands for code OUTSIDE the patch: only the '+' elision at the same place - the implicit one
+   of the '+' side - repeats it (repo fix e818090).  A '+' elision written before every explicit '-'
+   elision has no counterpart. *)
+Definition same_place (a b : dpos) : bool := dpos_le a b && dpos_le b a.
+
+Definition pick (lead : N) (lhs : list dpos) (r : dpos) : option dpos :=
+  match best_le lhs r with
+  | Some l => if N.eqb (dp_id l) lead && negb (same_place l r) then None else Some l
+  | None => None
+  end.
+
+Fixpoint connect_dots (lead : N) (lhs rhs : list dpos) : option (list (N * N)) :=
   match rhs with
   | [] => Some []
   | r :: rhs' =>
-      match best_le lhs r with
+      match pick lead lhs r with
       | None => None
-      | Some l => match connect_dots lhs rhs' with
+      | Some l => match connect_dots lead lhs rhs' with
                   | Some m => Some ((dp_id r, dp_id l) :: m)
                   | None => None
                   end
@@ -268,4 +280,5 @@ Definition recorded (p : npat) (ds : list dpos) : list dpos :=
 
 (* compileChange: connectDots over the recorded elisions of the two sides *)
 Definition change_assoc (minus plus : npat) (mdots pdots : list dpos) : option (list (N * N)) :=
-  connect_dots (recorded minus mdots) (recorded plus pdots).
+  connect_dots (match minus with PStmts s _ _ => s | PNode _ => 0 end)
+               (recorded minus mdots) (recorded plus pdots).
